@@ -361,6 +361,10 @@ func (o *oracle) qcBacked(qc hotstuff.QuorumCert) (bool, string) {
 
 func (o *oracle) tcBacked(tc hotstuff.TimeoutCert) (bool, string) {
 	if tc.View() == 0 {
+		if tc.Signature() != nil {
+			// nobody times out of view 0: its certificate is the unsigned initial one (compare the genesis QC)
+			return false, "certificate for view 0 carries a signature"
+		}
 		return true, ""
 	}
 	if tc.Signature() == nil {
